@@ -3,7 +3,7 @@ import gen
 
 ID = "C01"
 LEVEL = "proof"
-MODULES = ["H3Proofs.Props.C01", "H3Proofs.Props.C01Lnz", "H3Proofs.Props.C01Rot", "H3Proofs.Props.C04Gen", "H3Proofs.Props.C05Gen", "H3Proofs.Props.C05Valid2", "H3Proofs.Props.C02Valid", "H3Proofs.Props.C09Valid", "H3Proofs.Props.C10Valid", "H3Proofs.Props.C05All"]
+MODULES = ["H3Proofs.Props.C01", "H3Proofs.Props.C01Lnz", "H3Proofs.Props.C01Rot", "H3Proofs.Props.C04Gen", "H3Proofs.Props.C05Gen", "H3Proofs.Props.C05Valid2", "H3Proofs.Props.C02Valid", "H3Proofs.Props.C09Valid", "H3Proofs.Props.C10Valid", "H3Proofs.Props.C05All", "H3Proofs.Props.C01Api"]
 THEOREMS = ["H3.C01.isValidCell_eq_layout", "H3.C01.isValidCell_defined_all", "H3.C01.pentBC_eq_table",
             "H3.C01L.h3LeadingNonZeroDigit_defined_all", "H3.C01L.h3LeadingNonZeroDigit_eq_model",
             "H3.C01R.h3Rotate60ccw_defined_all", "H3.C01R.h3Rotate60cw_defined_all",
@@ -14,6 +14,8 @@ THEOREMS = ["H3.C01.isValidCell_eq_layout", "H3.C01.isValidCell_defined_all", "H
             "H3.C04G.makeDirectChild_defined_of", "H3.C04G.setH3Index_eq_model", "H3.C04G.setH3Index_defined_of",
             "H3.C05G.h3RotatePent60ccw_eq_model", "H3.C05G.h3RotatePent60cw_eq_model",
             "H3.C05G.h3RotatePent60ccw_defined_all", "H3.C05G.h3RotatePent60cw_defined_all",
+            "H3.C01A.getResolution_eq_model", "H3.C01A.getBaseCellNumber_eq_model", "H3.C01A.isResClassIII_eq_model",
+            "H3.C01A.getters_defined_all", "H3.C01A.counts",
             "H3.C05V.h3NeighborRotations_layout", "H3.C05V.walk_valid", "H3.C02V.faceIjkToH3_valid",
             "H3.C09V.localIjToCell_valid", "H3.C09V.gridPathCells_valid", "H3.C10V.edge_cells_valid",
             "H3.C05R.gridDiskDistancesUnsafe_valid", "H3.C05R.gridRingUnsafe_valid", "H3.C05All.gridDiskDistances_valid"]
@@ -66,7 +68,7 @@ def _values(rng, tier):
 def streams(rng, tier):
     vals = _values(rng, tier)
     ops = ["valid " + gen.hx(h) for h in vals]
-    ops2 = ["vparts " + gen.hx(h) for h in vals[::3]] + ["genfn " + gen.hx(h) for h in vals[::5]] + \
+    ops2 = ["vparts " + gen.hx(h) for h in vals[::3]] + ["genfn " + gen.hx(h) for h in vals[::5]] + ["genfn6 " + gen.hx(h) for h in vals[::9]] + \
         ["genfn2 %s %d %s" % (gen.hx(h), r_, gen.hx(vals[(i_ * 7 + 3) % len(vals)]))
          for i_, h in enumerate(vals[::7]) for r_ in ((i_ % 19) - 2, gen.EXTREME_INTS[i_ % len(gen.EXTREME_INTS)])]
     ops3 = []
